@@ -15,6 +15,11 @@ import sys
 ROOT = os.path.dirname(os.path.dirname(os.path.abspath(__file__)))
 
 DIRECTIONS = {
+    'surface': '''     Directions worth exploring (each of your mutations should follow a different one of these):
+       * ALTERNATIVE ENTRY POINT: the property is broken only through a secondary route - an alias, a method of a container class instead of the module-level function (or the reverse), positional instead of keyword passing, a wrapper / decorator, `**config` versus `config.get_func()`, a documented convenience function that shares a helper with the main one, a rarely used keyword (`ret_*`, `out=`, `mode=`, `ii=`, `weights=`, `return_sparse=` ...) - while the primary, most commonly called form stays correct;
+       * DEFAULT DRIFT: a default value changed at one site but not at another (function signature vs. configuration template vs. the value a wrapper passes on), so that "omit the option" and "pass the documented default explicitly" no longer behave alike;
+       * SHAPE / AXIS / ORDER: outputs transposed, columns or rows in another order, or an axis reduced along the wrong dimension, visible only when the dimensions differ (non-square shapes, more than one column, more IMFs than samples in a block, a single row);
+       * VALIDATION: a validation step that now rejects or silently coerces (rounds, clips, casts, squeezes, sorts) a legal class of inputs on which the statement of the property applies - the common inputs stay untouched.''',
     'sched': '''     Directions worth exploring (both of your mutations should follow one of these):
        * SCHEDULE / PLACEMENT DEPENDENCE: the result is wrong only for particular assignments of jobs to worker processes (e.g. only when some worker receives two specific jobs, only when a worker processes jobs out of index order, only when three or more workers are used, only when a worker is reused by a second map call on the same pool, only when a chunk holds several jobs) - think of per-process caches, module-level state set inside a worker, state inherited at fork time, in-place operations on arguments that are shared inside one pickled chunk;
        * HISTORY DEPENDENCE: the result is wrong only after a particular sequence of at least four or five operations on the same object or in the same process (a cache that is invalidated by most operations but not by one of them, a counter that is reset in the wrong place, a flag that survives an exception, a default that is captured the first time and reused);
